@@ -33,7 +33,7 @@ FORMS = ["zero", "one", "two", "few", "many", "other"]
 
 def run_l2(run):
     """run-time selection: every locale (incl. regional variants that share a language), counts 0..=200 and large ones, in two
-    orders of the locales within one process (the plural-rules cache must not leak between locales)"""
+    orders of the locales within one process and from eight threads at once (the plural-rules cache must not leak between locales)"""
     import os
     import probe
     oracle = plural_oracle(run, L2_LOCS, [str(n) for n in L2_COUNTS])
@@ -69,6 +69,27 @@ def run_l2(run):
                     line("tpo", leptos_i18n::plurals::td_plural_ordinal!(l, count = move || n, one => "one", _ => "other").to_string());
                 }
             }
+        }
+    }
+    // the plural-rules cache is process-wide: eight threads walk the locales in different rotations at the same time
+    let handles: Vec<_> = (0..8usize).map(|t| {
+        let fwd = fwd.clone();
+        std::thread::spawn(move || {
+            let mut lines = Vec::new();
+            for i in 0..fwd.len() {
+                let l = fwd[(i + t * 3) % fwd.len()];
+                for n in 0..=30u64 {
+                    lines.push(format!("{{\"call\":1,\"pass\":{},\"locale\":\"{}\",\"n\":{},\"key\":\"k\",\"outcome\":\"Ok\",\"out\":\"{}\"}}", 10 + t, l.as_str(), n, esc(&td_string!(l, k, count = n).to_string())));
+                    lines.push(format!("{{\"call\":1,\"pass\":{},\"locale\":\"{}\",\"n\":{},\"key\":\"o\",\"outcome\":\"Ok\",\"out\":\"{}\"}}", 10 + t, l.as_str(), n, esc(&td_string!(l, o, count = n).to_string())));
+                }
+            }
+            lines
+        })
+    }).collect();
+    for h in handles {
+        match h.join() {
+            Ok(lines) => for ln in lines { println!("{}", ln); },
+            Err(_) => println!("{{\"call\":1,\"pass\":99,\"locale\":\"en\",\"n\":0,\"key\":\"k\",\"outcome\":\"Panic\",\"out\":\"\"}}"),
         }
     }
     String::new()"""
